@@ -49,7 +49,7 @@ fn fits(ty: &str, v: i128) -> bool {
 }
 const MECHS: &[&str] = &[
     "assign", "init", "fb-input", "fb-inout", "func-return", "struct-field", "array-elem", "subrange-assign", "arith-literal", "for-control", "fb-output-read", "for-control-empty", "for-control-exit",
-    "subrange-default", "fb-positional-eno", "func-positional-eno", "access-partial",
+    "subrange-default", "fb-positional-eno", "func-positional-eno", "access-partial", "access-array-struct",
 ];
 
 fn lit(ty: &str, v: i64) -> String {
@@ -133,6 +133,10 @@ pub fn matrix_source(mech: &str, dst: &str, src: &str) -> String {
                 "PROGRAM Main\nVAR\n  d : {dst} := {s};\n  n : INT;\nEND_VAR\nn := n + INT#1;\nIF n = INT#2 THEN\n{body}END_IF;\nEND_PROGRAM\nCONFIGURATION C\nPROGRAM P1 : Main;\nVAR_ACCESS\n{acc}END_VAR\nEND_CONFIGURATION\n"
             ));
         }
+        // access paths that lead through an array element into a struct field (and into an array of arrays)
+        "access-array-struct" => out.push_str(&format!(
+            "TYPE St : STRUCT f : {dst}; g : DINT; END_STRUCT END_TYPE\nPROGRAM Main\nVAR\n  arr : ARRAY[0..2] OF St;\n  grid : ARRAY[0..1] OF ARRAY[0..1] OF {dst};\n  n : INT;\nEND_VAR\nn := n + INT#1;\nIF n = INT#2 THEN\nAf := {s};\nAg := {s};\nEND_IF;\nEND_PROGRAM\nCONFIGURATION C\nPROGRAM P1 : Main;\nVAR_ACCESS\n  Af : P1.arr[1].f : {dst} READ_WRITE;\n  Ag : P1.grid[1][0] : {dst} READ_WRITE;\nEND_VAR\nEND_CONFIGURATION\n"
+        )),
         _ => out.push_str(&format!(
             "FUNCTION_BLOCK Fb\nVAR_OUTPUT\n  y : {src} := {s};\nEND_VAR\nEND_FUNCTION_BLOCK\nPROGRAM Main\nVAR\n  fb : Fb;\n  d : {dst};\nEND_VAR\nfb();\nd := fb.y;\nEND_PROGRAM\n"
         )),
@@ -416,7 +420,7 @@ impl C03Check {
                     }
                     continue;
                 }
-                if matches!(*mech, "arith-literal" | "for-control" | "for-control-empty" | "for-control-exit" | "fb-positional-eno" | "func-positional-eno") {
+                if matches!(*mech, "arith-literal" | "for-control" | "for-control-empty" | "for-control-exit" | "fb-positional-eno" | "func-positional-eno" | "access-array-struct") {
                     cells.push((mi, di, di));
                     continue;
                 }
@@ -502,6 +506,19 @@ impl C03Check {
                 }
             }
         }
+        if mech == "access-array-struct" {
+            // the same paths written from outside (Runtime::write_access) with a value read back through them
+            for name in ["Af", "Ag"] {
+                if let Some(v) = guard("read_access", || rt.read_access(name))? {
+                    if guard("write_access", || rt.write_access(name, v.clone()))?.is_ok() {
+                        stats.inc("matrix.array_struct_access_written_from_outside");
+                    }
+                }
+                if let Some((path, want, got, kind)) = declared_walk(&rt).first() {
+                    return Err(Violation::new(format!("{kind}/access-array-struct-external/{class}"), format!("write_access({name}) on {dst}: {path} declared {want} holds {got}\n{source}")));
+                }
+            }
+        }
         if mech == "subrange-default" {
             for mode in [trust_runtime::RestartMode::Cold, trust_runtime::RestartMode::Warm] {
                 if guard("restart", || rt.restart(mode))?.is_err() {
@@ -530,6 +547,14 @@ impl C03Check {
         stats.inc("history.accepted");
         rt.io_mut().resize(proggen::INPUT_LEN, 8, 0);
         let store = world::SimRetainStore::new();
+        {
+            // the durable copy goes through the real codec and a real file (FileRetainStore)
+            let dir = crate::framework::scratch_dir().join(format!("c03-{}", std::process::id()));
+            let _ = std::fs::create_dir_all(&dir);
+            let path = dir.join("retain.bin");
+            let _ = std::fs::remove_file(&path);
+            store.0.lock().unwrap().via_file = Some(path);
+        }
         rt.set_retain_store(Some(Box::new(store.clone())), None);
         let global_tags = world::tag_walk(&rt).into_iter().filter(|(p, _)| !p.contains('.')).collect::<Vec<_>>();
         let mut ph = Fnv::new();
